@@ -9,8 +9,9 @@ constrains the *inputs* only - the expected values come from TLC.
 """
 HOOKS = ['py_initialize', 'initialize', 'initialize_pair', 'loop_all', 'loop',
          'post_loop', 'reduce']
-BASE = ['x', 'y', 'z', 'h', 'm', 'rho', 'u', 'v', 'w']
-NONNEG_BASE = ['x', 'y', 'z', 'h', 'm', 'rho']
+BASE = ['x', 'y', 'z', 'h', 'm', 'rho', 'u', 'v', 'w', 'ik']   # ik: int typed
+NONNEG_BASE = ['x', 'y', 'z', 'h', 'm', 'rho', 'ik']
+INT_BASE = ['ik']
 TYPES = ['double', 'int', 'long', 'uint', 'float']
 PTYPE = {'double': 'double', 'int': 'int', 'long': 'long',
          'uint': 'unsigned int', 'float': 'float'}
@@ -27,7 +28,7 @@ SYM_BOUND = {'HIJ': 6, 'R2IJ': 147, 'RHOIJ': 6, 'WIJ': 1100, 'WI': 1100,
              'WJ': 1100, 'WDP': 1100, 'WDASHI': 170, 'WDASHJ': 170,
              'WDASHIJ': 170, 'GHI': 920, 'GHJ': 920, 'GHIJ': 920, 'XIJ': 9,
              'VIJ': 6, 'DWIJ': 210, 'DWI': 210, 'DWJ': 210, 'RIJ': 9}
-BASE_BOUND = {'x': 9, 'y': 5, 'z': 4, 'h': 6, 'm': 4, 'rho': 6, 'u': 3,
+BASE_BOUND = {'ik': 9, 'x': 9, 'y': 5, 'z': 4, 'h': 6, 'm': 4, 'rho': 6, 'u': 3,
               'v': 3, 'w': 3}
 
 
@@ -105,10 +106,11 @@ class Bounds(object):
 # generation
 # ---------------------------------------------------------------------------
 class Gen(object):
-    def __init__(self, rng, mid, d1=False, na=None, neq=10):
+    def __init__(self, rng, mid, d1=False, na=None, neq=10, idiv=False):
         self.rng = rng
         self.mid = mid
         self.d1 = d1
+        self.idiv = idiv
         self.na = na or rng.choice([2, 2, 3])
         self.neq = neq
         self.slots = slots()
@@ -324,6 +326,19 @@ class Gen(object):
                 f.append(rng.choice([A('sp', 'm'), A('dp', 'm'), A('sym', 'HIJ'),
                                      A('sym', 'RHOIJ'), A('sp', 'h')]))
             e.append(dict(c=rng.randint(1, 3), f=f))
+        if self.idiv and rng.random() < 0.8:
+            # `/` between two integer-typed operands: integer literal,
+            # integer-valued instance attribute, int-typed property
+            num = rng.choice([A('il', '', rng.randint(1, 7)), A('at', 'ci'),
+                              A('at', 'cj'), A('dp', 'ik'), A('sp', 'ik')])
+            den = rng.choice([A('il', '', rng.randint(2, 6)), A('at', 'ci'),
+                              A('at', 'cj')])
+            f = [A('idiv', '', 0, [num, den])]
+            if rng.random() < 0.5:
+                f.append(rng.choice([A('sp', 'm'), A('dp', 'm')]))
+            e.append(dict(c=rng.randint(1, 3), f=f))
+            self.feat('int/int:%s/%s' % (num['k'] + num['n'],
+                                         den['k'] + den['n']))
         self.feat('write:rational')
         return dict(tk='dp', tn=tn, tc=rng.randrange(self.rats[tn]),
                     op='radd', lets=[], e=e)
@@ -353,7 +368,8 @@ class Gen(object):
     def module(self):
         rng = self.rng
         na = self.na
-        spec = dict(mid=self.mid, na=na, d1=self.d1, slots=self.slots,
+        spec = dict(mid=self.mid, na=na, d1=self.d1, idiv=self.idiv,
+                    slots=self.slots,
                     rats=self.rats, consts=dict(cin=3, cacc=4))
         bd = Bounds(spec)
         prog = []
@@ -411,6 +427,7 @@ class Gen(object):
                                 hooks=[h for h in HOOKS if h in hooks]))
                 body[str(eid)] = dict(
                     attrs=dict(ca=rng.randint(1, 5), ci=rng.randint(1, 5),
+                               cj=rng.randint(1, 5),
                                cv=[rng.randint(1, 9), rng.randint(1, 9)]),
                     **dict((h, []) for h in HOOKS))
             g['eqs'] = eqs
@@ -511,9 +528,9 @@ def unstrip(s, bd):
     return [dict(c=tm['c'], f=[fix(a) for a in tm['f']]) for tm in s['e']]
 
 
-def gen_module(rng, mid, d1=False, neq=10):
+def gen_module(rng, mid, d1=False, neq=10, idiv=False):
     for attempt in range(50):
-        g = Gen(rng, mid, d1=d1, neq=neq)
+        g = Gen(rng, mid, d1=d1, neq=neq, idiv=idiv)
         spec = g.module()
         for b in spec['body'].values():
             for h in HOOKS:
@@ -542,6 +559,7 @@ def gen_data(rng, spec, dim, rid):
         p['rho'] = [rng.choice([2, 4, 6]) for i in range(nall)]
         for n in 'uvw':
             p[n] = [rng.randint(-3, 3) for i in range(nall)]
+        p['ik'] = [rng.randint(0, 9) for i in range(nall)]
         for n, (ty, st) in spec['slots'].items():
             p[n] = [rng.randint(0, 3) for i in range(nall * st)]
         for n, st in spec['rats'].items():
@@ -564,7 +582,7 @@ def gen_data(rng, spec, dim, rid):
 def static_part(spec):
     """Fields of a TLC case that do not depend on the data set."""
     stride = dict((n, 1) for n in BASE)
-    types = dict((n, 'double') for n in BASE)
+    types = dict((n, 'int' if n in INT_BASE else 'double') for n in BASE)
     for n, (ty, st) in spec['slots'].items():
         stride[n] = st
         types[n] = ty
@@ -574,7 +592,8 @@ def static_part(spec):
     for n in spec['consts']:
         types[n] = 'double'
     return dict(prog=spec['prog'], body=spec['body'], stride=stride,
-                types=types, rat=sorted(spec['rats']))
+                types=types, rat=sorted(spec['rats']),
+                idiv=bool(spec.get('idiv')))
 
 
 # ---------------------------------------------------------------------------
@@ -622,6 +641,11 @@ class Render(object):
         k = a['k']
         if k == 'c':
             return self.lit(a['i'])
+        if k == 'il':
+            return '%d' % a['i']
+        if k == 'idiv':
+            return '(%s/%s)' % (self.atom(a['a'][0], use),
+                                self.atom(a['a'][1], use))
         if k in ('dp', 'sp'):
             pre = k[0]
             if self.swap and self.cur == 'loop' and a['n'] in BASE:
@@ -749,9 +773,10 @@ class Render(object):
                 b = self.spec['body'][str(e['eid'])]
                 src += ['class Pq%d(Equation):' % e['eid'],
                         '    def __init__(self, dest, sources, ca=1.0, ci=1, '
-                        'cv=None):',
+                        'cj=1, cv=None):',
                         '        self.ca = ca',
                         '        self.ci = ci',
+                        '        self.cj = cj',
                         '        self.cv = numpy.asarray(cv, dtype=float)',
                         '        super(Pq%d, self).__init__(dest, sources)'
                         % e['eid'], '',
